@@ -7,7 +7,7 @@ git worktree remove --force /tmp/wt-$n 2>/dev/null || true
 git branch -D scratch-$n 2>/dev/null || true
 git worktree add -q -b scratch-$n /tmp/wt-$n HEAD
 cd /tmp/wt-$n
-git rm -q --cached */zz_contracts_verif.go 2>/dev/null || true
-rm -f */zz_contracts_verif.go */*/zz_contracts_verif.go
+git ls-files "*zz_contracts_verif.go" | xargs -r git rm -q --cached
+find . -name zz_contracts_verif.go -delete
 git commit -qm "scratch: without verif hook files" || true
 echo /tmp/wt-$n
